@@ -233,6 +233,31 @@ func decideWith(ob *Obligation, timeoutS int, all bool, dumpDir string, choice m
 				ob.Solver = r.solver
 				ob.SMTSize = len(sc)
 				setHint(hkey, levelIndex(o))
+				if all {
+					// thorough: the other solvers get the very script that was just refuted; a `sat` from any of them
+					// is a disagreement between solvers and is reported as an error, never ignored
+					for _, cfg := range solvers {
+						if cfg.name == r.solver {
+							continue
+						}
+						s2 := sc
+						if cfg.cvc5 {
+							o3 := o2
+							o3.cvc5 = true
+							s2 = vc.script(ob, o3)
+						}
+						r2 := runSolver(cfg, s2, 20)
+						ob.Tried = append(ob.Tried, fmt.Sprintf("cross-check %s:%s:%.2fs", r2.solver, r2.status, r2.secs))
+						ob.TimeS += r2.secs
+						switch r2.status {
+						case "unsat":
+							ob.Solver += "+" + r2.solver
+						case "sat":
+							ob.Status = "error"
+							ob.Output = "solvers disagree on the same script: " + strings.Join(ob.Tried, " ")
+						}
+					}
+				}
 				if dumpDir != "" {
 					os.MkdirAll(dumpDir, 0o755)
 					os.WriteFile(filepath.Join(dumpDir, mangle(ob.Name)+".smt2"), []byte(sc), 0o644)
